@@ -1001,6 +1001,8 @@ namespace fixedmath
     constexpr fixed_internal _39o16 { 159744 }; // 19/16
     constexpr fixed_internal atan_39o16 { 77429 }; //77429,4473907736
 
+    constexpr fixed_internal _2pow24 { fixed_internal(1) << (24 + prec_) };
+
     fixed_internal x { value.v };
     bool sign_ {};
     if( x < 0 )
@@ -1017,8 +1019,11 @@ namespace fixedmath
       result = atan_sum<prec_, atan_11o16, _11o16>( x );
     else if( x < _39o16 )
       result = atan_sum<prec_, atan_19o16, _19o16>( x );
-    else
+    else if( x < _2pow24 )
       result = atan_sum<prec_, atan_39o16, _39o16>( x );
+    else
+      // x*c in atan_sum does not fit into fixed_internal for huge x, and pi/2 - atan(x) < 2^-24 there
+      result = fixpidiv2.v;
     
     if( !sign_)
       return as_fixed(result);
